@@ -64,7 +64,13 @@ func (q *queryExecutor) attemptQuery(ctx context.Context, qry ExecutableQuery, c
 
 func (q *queryExecutor) speculate(ctx context.Context, qry ExecutableQuery, sp SpeculativeExecutionPolicy,
 	hostIter NextHost, results chan *Iter) *Iter {
-	ticker := time.NewTicker(sp.Delay())
+	delay := sp.Delay()
+	if delay <= 0 {
+		// time.NewTicker panics on a non-positive interval: no delay means
+		// the speculative executions start (almost) at once
+		delay = time.Nanosecond
+	}
+	ticker := time.NewTicker(delay)
 	defer ticker.Stop()
 
 	for i := 0; i < sp.Attempts(); i++ {
